@@ -158,11 +158,23 @@ func runC15(c *Ctx) {
 				if last == errV {
 					fwd = true
 				}
-				if knownNil(r.Block(), errV, false) {
+				if knownNilVia(r.Block(), errV, false) {
 					if isNilConst(last) {
 						badRet = true
 					} else {
 						okRet = true
+					}
+				} else if ph, isPhi := last.(*ssa.Phi); isPhi {
+					// the joined outcome of a folded helper returned as it is: the operand that arrives from where the
+					// error is known non-nil
+					for ei, e := range ph.Edges {
+						if knownNilVia(ph.Block().Preds[ei], errV, false) {
+							if isNilConst(e) {
+								badRet = true
+							} else {
+								okRet = true
+							}
+						}
 					}
 				}
 			}
@@ -800,6 +812,34 @@ func c15EmptyForms(c *Ctx, rule string) {
 					}
 					for _, ec := range condsDominating(r.Block()) {
 						if ec.Cond == ssa.Value(b) && ec.Val {
+							okE = true
+						}
+					}
+				}
+				// ... or (the test folded back in from a helper that yields "no parts" for the empty input) the split is
+				// only reached when the test fails, and every return that can follow the test's success - with the
+				// joined values taken as on that edge - has a nil error
+				if !okE {
+					for _, r := range *b.Referrers() {
+						iff, ok := r.(*ssa.If)
+						if !ok {
+							continue
+						}
+						splitUnderFalse := false
+						for _, ec := range condsDominating(call.Block()) {
+							if ec.Cond == ssa.Value(b) && !ec.Val {
+								splitUnderFalse = true
+							}
+						}
+						rets := returnsReachableFrom(iff.Block(), iff.Block().Succs[0])
+						allNil := len(rets) > 0
+						for _, rt := range rets {
+							rv := retVals(rt)
+							if !isNilConst(rv[len(rv)-1]) {
+								allNil = false
+							}
+						}
+						if splitUnderFalse && allNil {
 							okE = true
 						}
 					}
